@@ -248,6 +248,25 @@ theorem validate_eq_rfc6811 (roas : List Roa) (a : Ann) (hwf : AllWF roas) :
       | notFound => exact absurd hx hnf
       | _ => rfl
 
+/-- `covers` – the bit-mask test of riswhois.rs that decides which ROAs and announcements
+meet – is inclusion of address ranges, for well-formed prefixes of one family.  It is also
+what `TypedPrefix::matching_or_less_specific` (api/roa.rs) computes. -/
+theorem covers_is_range_inclusion (p q : Prefix) (hp : p.WF) (hq : q.WF) (hf : p.fam = q.fam) :
+    (p.covers q = true ↔ (p.lo ≤ q.lo ∧ q.hi ≤ p.hi)) ∧
+    p.matchingOrLessSpecific q = p.covers q := by
+  have h := covers_iff_range p q hp hq hf
+  refine ⟨h, ?_⟩
+  unfold Prefix.matchingOrLessSpecific
+  rw [Bool.eq_iff_iff, h]
+  simp [hf]
+
+/-- `covers` is a partial order on well-formed prefixes. -/
+theorem covers_partial_order :
+    (∀ p : Prefix, p.WF → p.covers p = true) ∧
+    (∀ p q r : Prefix, p.WF → q.WF → p.covers q = true → q.covers r = true → p.covers r = true) ∧
+    (∀ p q : Prefix, p.WF → q.WF → p.covers q = true → q.covers p = true → p = q) :=
+  ⟨covers_refl, covers_trans, covers_antisymm⟩
+
 /-! ## The per-ROA sets of the report -/
 
 /-- The announcements the report lists as authorised by a (non-AS0) ROA are exactly the
